@@ -61,15 +61,15 @@ CLAIMS["C02"] = ("proof", "Lean 4 invariant + frame theorems over the world mode
                  "index)/externalMove/getArch and by every unlocked operation, applyPack, flush and unlock; frame_other_entities_* (an operation on e never "
                  "changes any other entity's components or values), read_last_written, components_eq_mask, removeComp_keeps_values, clone_copies_values, "
                  "same_key_same_archetype, archetype_rows_exact; " + _WM_TIE + ".",
-                 WORLD_NOTE + "; id-table facts enter as named hypotheses (AllocOK, FreeHeadNot) reduced to the C01 invariant; LiveInv through flush and "
-                 "clear/update is stated, not proved (liveInv_flush_statement)")
+                 WORLD_NOTE + "; the history-level statement (component sets and values of every entity = what its history implies) is "
+                 "Props/Refinement.run_refines, audited with this property, under the contract OpWf and the range conditions Bounds")
 CLAIMS["C05"] = ("proof", "Lean 4 theorems (isolation while locked, pack/flush structure, singleton packs = unlocked ops) + scripted-interleaving correspondence",
                  "locked_isolation (every API call issued while locked changes only buffers/nextEntityId/temps: validity, components, rows, locations fixed), "
                  "unlock_inner_noop, packs_concat/packs_one_entity/packs_create_first/packs_maximal, flush_order (buffers in thread order, packs in log "
                  "order), flush_leaves_buffers_empty, pack_singleton_eq_unlocked_{destroyNow,remove,assign}; " + _WM_TIE + " (the spec applies the recorded "
                  "commands one by one in thread order, skipping dead targets).",
-                 WORLD_NOTE + "; flush_eq_sequential for multi-command packs is stated (flush_eq_sequential_statement) and decided by the spec oracle on the "
-                 "explored histories, not proved")
+                 WORLD_NOTE + "; flush = sequential meaning is Props/Refinement.flush_refines / run_refines (audited with this property), under the "
+                 "contract OpWf and the range conditions Bounds")
 CLAIMS["C09"] = ("proof", "Lean 4 theorems: every checked entry point is a no-op on an invalid handle (any state, any 64-bit pattern) + malformed-stream correspondence",
                  "isValid_spec; getComp/hasComp/hasShared/archOf_invalid; destroyNowU/destroyNow/removeComp/sremove/clone_invalid return the state unchanged; "
                  "applyPack_invalid (deferred form: the whole concrete state untouched); destroy_marks_only + destroy_invalid_dropped_by_update; with C01 "
